@@ -53,3 +53,15 @@ claim("C10", "other",
       "the whole record -> split -> detrend per window against scipy directly; SeismicRecording3C.split splits the three components identically.",
       TB + "Float model only for / and + inside split; int/int quotients below 2**53 treated as exact. scipy butter/sosfiltfilt/detrend external.",
       "contract-based deductive verification with a floating-point error model (z3+cvc5) + bounded native pipeline comparison", "DESIGN.md 5/C10")
+
+claim("C04", "other",
+      "Proof: SeismicRecording3C.orient_sensor_to is, for every recording and every pair of orientations, the pointwise rotation ns' = ew sin(d) + ns cos(d), "
+      "ew' = ew cos(d) - ns sin(d) (clockwise from north), leaves the vertical, dt and the deployed orientation untouched and stores the new "
+      "orientation; SeismicRecording3C.__init__ normalises any orientation into [0,360) congruent modulo 360 and copies the components; "
+      "single_azimuth (C01). Lemmas over those contracts and named A-TRIG instances: energy preservation, composition, invertibility, "
+      "360-degree residues, polarisation recovery, single azimuth = north component after orienting, 180-degree antiperiodicity, rotation "
+      "invariance of |NS|^2+|EW|^2. Bounded (labelled): the processing-level consequences (azimuthal = stack of single-azimuth results, RotDpp "
+      "within [min,max] over azimuths and non-decreasing in the percentile, rotation-invariant methods and diffuse field independent of "
+      "orientation, preprocessing orients every record incl. target 0) evaluated natively.",
+      TB + "cos/sin uninterpreted; only the named identities (Pythagoras, angle addition, parity, periodicity) are assumed, each lemma lists the instances it uses.",
+      "contract-based deductive verification (z3+cvc5, nonlinear real lemmas over trig axioms) + bounded native evaluation of processing-level consequences", "DESIGN.md 5/C04")
